@@ -42,6 +42,21 @@ def checkBody (e : Expect) (b : Val) : List String :=
   check (((fld b 8) >>= asList >>= (fun l => l.mapM asInt)) == some e.etypes) "etypes are not the configured ones, in order" ++
   check ((fld b 9).isNone) "addresses present although noaddresses is set"
 
+/-- lists that RFC 4120 does not allow to be transmitted empty (5.4.1 padata "NOT empty"; 5.2.5 HostAddresses
+    "always used as an OPTIONAL field and should not be empty"; an empty etype list or ticket list asks for
+    nothing), in a KDC-REQ of either kind (`tgs` selects the application tag) -/
+def shape (tgs : Bool) (req : Bytes) : List String :=
+  match decode (if tgs then Rfc.tgsReq else Rfc.asReq) req with
+  | none => ["KDC-REQ does not decode"]
+  | some v =>
+    let body := (fld v 3).getD (.seq [])
+    check (match fld v 2 with | some (.list []) => false | _ => true)
+      "padata is present but empty (RFC 4120 5.4.1: NOT empty)" ++
+    check (match fld body 8 with | some (.list []) => false | _ => true) "etype list is empty" ++
+    check (match fld body 9 with | some (.list []) => false | _ => true)
+      "addresses are present but empty (RFC 4120 5.2.5: OPTIONAL, not empty)" ++
+    check (match fld body 11 with | some (.list []) => false | _ => true) "additional-tickets are present but empty"
+
 def paList (v : Val) : List (Int × Bytes) :=
   match fld v 2 with
   | some (.list l) => l.filterMap (fun x => do
